@@ -249,14 +249,15 @@ def check():
     if cur:
         chunks.append(cur)
 
+    cfg = os.path.join(wd, "rt.cfg")
+    open(cfg, "w").write("SPECIFICATION TraceSpec\nPOSTCONDITION TraceAccepted\nCHECK_DEADLOCK FALSE\n")
+
     def val(ic):
         i, chunk = ic
         tf = os.path.join(wd, f"rt-{i}.ndjson")
         with open(tf, "w") as f:
             for e in chunk:
                 f.write(json.dumps({k: v for k, v in e.items() if k != "cfg"}) + "\n")
-        cfg = os.path.join(wd, "rt.cfg")
-        open(cfg, "w").write("SPECIFICATION TraceSpec\nPOSTCONDITION TraceAccepted\nCHECK_DEADLOCK FALSE\n")
         return chunk, run_tlc("RunTrace.tla", cfg, f"rt-{i}", workers=1, timeout=1800, env_extra={"TRACE": tf},
                               java_opts="-Xss1g -Xmx2g -Dtlc2.tool.queue.IStateQueue=StateDeque", check=False)
     with cf.ThreadPoolExecutor(max_workers=12) as ex:
